@@ -273,8 +273,7 @@ gproof! { fn c12_union_eq_cross_variant_false() {
 
 // @h props=C16 tier=thorough kind=panic site="abort" fuc=ArcUnion::clone
 gpanic! { fn c16_union_clone_first_overflow_aborts() {
-    let n: usize = kani::any();
-    kani::assume(n > isize::MAX as usize);
+    let n = vrt::overflow_count();
     let u: ArcUnion<S1, S9a8> = ArcUnion::from_first(mk(S1::any(), n));
     let u2 = u.clone();
     core::mem::forget(u);
@@ -283,8 +282,7 @@ gpanic! { fn c16_union_clone_first_overflow_aborts() {
 
 // @h props=C16 kind=panic site="abort" fuc=ArcUnion::clone
 gpanic! { fn c16_union_clone_second_overflow_aborts() {
-    let n: usize = kani::any();
-    kani::assume(n > isize::MAX as usize);
+    let n = vrt::overflow_count();
     let u: ArcUnion<S1, S9a8> = ArcUnion::from_second(mk(S9a8::any(), n));
     let u2 = u.clone();
     core::mem::forget(u);
